@@ -175,7 +175,7 @@ def idx_from_indexes(e):
     if x[0] == "app" and flow.last(x[1]) in ("find", "next"):
         recv = deep_strip(x[2][0])
         # peel adaptors
-        while recv[0] == "app" and flow.last(recv[1]) in ("enumerate", "into_iter", "iter", "rev", "copied") and recv[2]:
+        while recv[0] == "app" and flow.last(recv[1]) in ("enumerate", "into_iter", "iter", "rev", "copied", "take") and recv[2]:
             recv = deep_strip(recv[2][0])
         if recv[0] == "index":
             recv = deep_strip(recv[1])
@@ -232,8 +232,35 @@ def three_next(ctx, lib):
                 digits[key] = "keep" if ok_v else show(val)[:120]
             else:
                 digits[key] = shared.cls_of_term(val) or show(val)[:120]
+    none_justified(ctx, rule, b, paths)
     ctx.ob(rule, "digit-table", digits == {0: "B", 1: "T", "other": "keep"}, where=b.where(), expected="{0: BOT, 1: TOP, other: keep original}", found=str(digits))
     ctx.floor(rule, "stores examined", n_store, 3)
+
+
+def none_justified(ctx, rule, b, paths):
+    """'each once, starting with the interpretation itself': the iterator may answer None only when its state says it is exhausted - `current` is already
+    None, the decrement failed, or no position is left to advance - never because of the shape of the input (e.g. no undecided position: one completion)"""
+    n = 0
+    for p in paths:
+        if p.end != "return" or p.ret is None:
+            continue
+        r = strip(p.ret)
+        if not (r[0] == "adt" and r[2] == "None"):
+            continue
+        n += 1
+        ok = False
+        for e, v in p.cond:
+            e = deep_strip(unloop(e))
+            if e[0] == "app" and e[1] == "discr" and symx.contains(e[2][0], lambda n_: n_[0] == "field" and n_[2] == "current") and not symx.contains(e[2][0], lambda n_: n_[0] == "app") and int_of(v) != 1:
+                ok = True     # current is None
+            if is_call(e, "ThreeValuedInterpretationsIterator::decrement_vec") and int_of(v) == 0:
+                ok = True     # nothing left to decrement
+            if e[0] == "app" and e[1] == "discr" and symx.contains(e[2][0], lambda n_: n_[0] == "app" and flow.last(str(n_[1])) in ("find", "position")) and int_of(v) != 1:
+                ok = True     # no position left to advance
+            if is_call(e, "Option::is_some") and symx.contains(e, lambda n_: n_[0] == "field" and n_[2] == "current") and int_of(v) == 0:
+                ok = True
+        ctx.ob(rule, "none-only-when-exhausted", ok, where=b.where(), expected="None only if current is None / the step found nothing to advance", found=p.describe()[:200])
+    return n
 
 
 def three_decrement(ctx, lib):
@@ -355,13 +382,24 @@ def two_next(ctx, lib):
         for s_ in stores[1:]:
             t1 = deep_strip(s_[0])
             v1 = deep_strip(s_[1])
-            rng = symx.find_all(t1, lambda n: n[0] == "adt" and n[1].endswith("ops::Range"))
-            ok1 = t1[0] == "index" and idx_from_indexes(t1[2]) and shared.cls_of_term(v1) == "B" and len(rng) >= 1 and symx.adt_get(rng[0], "start") == vint(0)
-            if ok1:
+            # the positions before the found one: indexes[0..pos], indexes[..pos] or indexes.iter().take(pos)
+            rng = symx.find_all(t1, lambda n: n[0] == "adt" and (n[1].endswith("ops::Range") or n[1].endswith("ops::RangeTo")))
+            tk = symx.find_all(t1, lambda n: n[0] == "app" and flow.last(str(n[1])) == "take" and len(n[2]) == 2)
+            ok1 = t1[0] == "index" and idx_from_indexes(t1[2]) and shared.cls_of_term(v1) == "B"
+            end = None
+            if ok1 and rng:
+                if rng[0][1].endswith("ops::Range") and symx.adt_get(rng[0], "start") != vint(0):
+                    ok1 = False
                 end = deep_strip(symx.adt_get(rng[0], "end"))
-                ok1 = end[0] == "field" and end[2] == "0" and symx.contains(end, lambda n: n[0] == "app" and flow.last(n[1]) == "find")
+            elif ok1 and tk:
+                end = deep_strip(tk[0][2][1])
+            else:
+                ok1 = False
+            if ok1:
+                ok1 = end is not None and end[0] == "field" and end[2] == "0" and symx.contains(end, lambda n: n[0] == "app" and flow.last(n[1]) == "find")
             seen.add("reset")
             ctx.ob(rule, "two.earlier-become-bot", ok1, where=b.where(), expected="result[at'] = BOT for at' in indexes[0..pos of found]", found="%s := %s" % (show(t1)[:160], show(v1)))
+    none_justified(ctx, rule, b, paths)
     ctx.ob(rule, "two.cases", {"first", "none", "step", "reset"} <= seen, where=b.where(), expected="first / none / step / reset paths", found=sorted(seen))
     # `started` is set on the first call: MIR-level check (assignment of true to .started on the started==false branch)
     sets = []
